@@ -385,7 +385,7 @@ def run(ctx):
     ctx.extra["spec_behaviours_not_reproduced"] = drift   # each of these is also rejected by TLC below
     ctx.note_traces(traces)
     ctx.log("recorded %d real executions" % len(traces))
-    rej = ctx.validate("TelnetDataTrace", traces, shard_size=ctx.pick(400, 4000))
+    rej = ctx.validate("TelnetDataTrace", traces, shard_size=ctx.pick(400, 1500))
     report(ctx, traces, rej)
     bad = {x.idx for x in rej}
     ctx.extra["rejected_executions"] = len(rej)
